@@ -182,6 +182,28 @@ int main(int argc, char **argv)
 			vf_outcome(want);
 		}
 		free(store);
+	} else if (!strcmp(VF.space, "alias")) {
+		/* the 16-bit state the routine updates lies INSIDE the bytes it sums (a record whose own checksum field is part of the
+		 * summed range): the result is the CRC of the bytes as they were when the call was made */
+		int len, at, fam;
+		for (fam = 1; fam < 4; ++fam)
+		for (len = 2; len <= 40; ++len)
+		for (at = 0; at + 2 <= len; at += 2) {
+			uint16_t store16[32], copy16[32];
+			uint8_t *buf = (uint8_t *) store16, *cp = (uint8_t *) copy16;
+			uint16_t want, init;
+			int i;
+			if (!vf_case("state word at offset %d of a summed buffer of %d bytes (family %d)", at, len, fam)) continue;
+			for (i = 0; i < len; ++i) buf[i] = family_byte(fam, (size_t) i + (size_t) at * 3);
+			memcpy(cp, buf, (size_t) len);
+			memcpy(&init, buf + at, 2);
+			want = ref_crc16(init, cp, (size_t) len);
+			lha_crc16_buf(&store16[at / 2], buf, (size_t) len);
+			vf_step(vf_mix(store16[at / 2], (uint64_t) len * 64 + (uint64_t) at));
+			if (store16[at / 2] != want) vf_viol("crc-alias", "len=%d state at offset %d: got=%04x want=%04x", len, at, store16[at / 2], want);
+			vf_nontrivial(vf_mix((uint64_t) len * 64 + (uint64_t) at, (uint64_t) fam) + 9);
+			vf_outcome(want);
+		}
 	} else if (!strcmp(VF.space, "guard")) {
 		/* the data ends at the last readable byte of a mapping (the next page is inaccessible); meant for the unoptimised
 		 * build, where every access the source makes is really made */
